@@ -41,7 +41,7 @@ func (s Spec) Compile() (*regexp2.Regexp, error) {
 	if err != nil {
 		return nil, err
 	}
-	re.MatchTimeout = 3 * time.Second
+	re.MatchTimeout = 400 * time.Millisecond
 	return re, nil
 }
 
